@@ -40,7 +40,7 @@ def panelMargin (fn : Fn) (p : Panel) : Rat :=
   let e := (p.b + c) / 2
   let m := ratMax [fn.mag p.b, fn.mag c, fn.mag d, fn.mag e] (fn.mag p.a)
   let den := rabs (p.b - p.a) * m + rabs p.S + rabs p.S2
-  let num := rabs (rabs (p.S2 - p.S) - 15 * p.eps)
+  let num := rabs (rabs (p.S2 - p.S) - K.accFactor * p.eps)
   if den = 0 then (if num = 0 then 0 else 1) else num / den
 
 def handle : Handler := fun op args =>
